@@ -98,7 +98,7 @@ fn subjects_inner(rng: &mut Rng) -> (String, String, bool, &'static str) {
             // lines are separated by `;;`.
             String::new(),
             format!(
-                "'pi = (@'int -> 'int), 'pb = (@'bin -> 'bin), pcl = #('pi | 'pb) {{ | ='pi => 1 | 2 }}, p = @{{ m = !'int, n = !'int, [m, n] __integer_add__ }};;q = {} @?;;[&q pcl, &p pcl, [&q =&p], [&p =&q]];;6 q;;!q",
+                "'pi = (@'int -> 'int), 'pb = (@'bin -> 'bin), pcl = #('pi | 'pb) {{ | ='pi => 1 | 2 }}, p = @{{ m = !'int, n = !'int, [m, n] __integer_add__ }};;q = {} @?;;6 q;;[&q pcl, &p pcl, [&q =&p], [&p =&q], !q]",
                 rng.range(1, 90)
             ),
             false,
